@@ -170,6 +170,17 @@ def run(ctx):
             es.append(e)
             k += 1
             ctx.dist("plus-over-back-arc")
+    # reverse (evaluated directly) of operands having a state with initial and final weight but no arc
+    for _ in range(max(4, n // 8)):
+        lf = leaf(None)
+        m = lf["m"]
+        iso = max(F.states_of(m) + [0]) + 1
+        m["init"].append([iso, "1/3"])
+        m["final"].append([iso, "1/2"])
+        es.append(scale({"op": "reverse", "a": lf}, Fraction(1, 2)))
+        if ctx.rng.random() < 0.5:
+            es.append({"op": "reverse", "a": {"op": "from_string", "xs": []}})
+        ctx.dist("reverse-isolated-state")
     tab = WTable(ctx, "expr")
     strs = [list(x) for x in F.strings(nT, 3)]
     for i, e in enumerate(es):
